@@ -140,6 +140,8 @@ inductive Sel where
   | whole
   | idx (i : Int)
   | slice (a b : Option Int)
+  | strided (a b : Option Int) (step : Int)     -- x[a:b:step], Python semantics, any non-zero step
+  | pick (ks : List Int)                        -- x[[k₁, k₂, …]] / x[idx] with an index parameter
 deriving Repr, DecidableEq, Inhabited
 
 /-- vector expressions -/
@@ -156,6 +158,8 @@ inductive Ex (α : Type) where
   | and (a b : Ex α) | or (a b : Ex α)
   | in3 (x lo hi : Ex α)
   | sat (v lo hi : Ex α)
+  /-- `Mat_Mul(A, a)`: parameter `q` holds a matrix with `cols` columns, row-major -/
+  | matvec (q : Nat) (cols : Nat) (a : Ex α)
 deriving Inhabited
 
 /-- layouts: sizes of the variables and of the parameters, in address order -/
@@ -166,9 +170,37 @@ deriving Repr, Inhabited
 
 def offsetOf (sizes : List Nat) (k : Nat) : Nat := (sizes.take k).sum
 
+/-- Python's clamping of a slice bound for a positive step: into `[0, N]` -/
+def clampUp (N i : Int) : Int := if i < 0 then (if i + N < 0 then 0 else i + N) else (if i > N then N else i)
+/-- … and for a negative step: into `[-1, N - 1]` -/
+def clampDown (N i : Int) : Int := if i < 0 then (if i + N < 0 then -1 else i + N) else (if i ≥ N then N - 1 else i)
+/-- number of terms of a progression of positive stride `s` covering a distance `d`: `⌈d / s⌉`, 0 if `d ≤ 0` -/
+def strideCount (d s : Int) : Nat := if d ≤ 0 then 0 else ((d + s - 1) / s).toNat
+
+/-- `slice(a, b, step).indices(n)` of Python for `step ≠ 0`: (start, count) of the arithmetic progression -/
+def stridedBounds (n : Nat) (a b : Option Int) (step : Int) : Int × Nat :=
+  let N : Int := n
+  if step > 0 then
+    let start := (a.map (clampUp N)).getD 0
+    let stop := (b.map (clampUp N)).getD N
+    (start, strideCount (stop - start) step)
+  else
+    let start := (a.map (clampDown N)).getD (N - 1)
+    let stop := (b.map (clampDown N)).getD (-1)
+    (start, strideCount (start - stop) (-step))
+
 /-- flat indices selected from an object of size `n` starting at `base` (Python semantics:
-negative integer indices count from the end, slices clamp) -/
+negative integer indices count from the end, slices clamp, a zero step is an error, every element of an
+index list is normalised like an integer index) -/
 def Sel.indices (n base : Nat) : Sel → Except Err (List Nat)
+  | .strided a b step =>
+    if step = 0 then .error .index
+    else
+      let sc := stridedBounds n a b step
+      .ok ((List.range sc.2).map fun (j : Nat) => base + (sc.1 + (j : Int) * step).toNat)
+  | .pick ks => do
+      let js ← ks.mapM (Heap.normIdx n)
+      .ok (js.map (base + ·))
   | .whole => .ok ((List.range n).map (base + ·))
   | .idx i => do let k ← Heap.normIdx n i; .ok [base + k]
   | .slice a b =>
@@ -177,6 +209,11 @@ def Sel.indices (n base : Nat) : Sel → Except Err (List Nat)
 
 namespace Ex
 variable {α : Type}
+
+/-- `Σ_j p[k + j] · xs[j]`, accumulated from the left starting with the first product (a row of `A @ a`) -/
+def dotRow (k : Nat) (x : SEx α) : List (SEx α) → SEx α
+  | [] => .mul (.p k) x
+  | y :: rest => .add (.mul (.p k) x) (dotRow (k + 1) y rest)
 
 /-- number of elements of the value (numpy broadcasting of 1-D arrays) -/
 def bsize (a b : Nat) : Except Err Nat :=
@@ -192,6 +229,10 @@ def size (L : Layout) : Ex α → Except Err Nat
   | .neg a | .powi a _ | .fn1 _ a => size L a
   | .in3 x lo hi | .sat x lo hi => do
       let a ← size L x; let b ← size L lo; let c ← size L hi; let ab ← bsize a b; bsize ab c
+  | .matvec q cols a => do
+      let n ← (L.pars[q]?).elim (.error .key) .ok
+      let k ← size L a
+      if cols = 0 ∨ n % cols ≠ 0 ∨ k ≠ cols then .error .shape else .ok (n / cols)
 
 /-- element `i` of the value, as a scalar expression over the flat vectors -/
 def lower (L : Layout) (i : Nat) : Ex α → Except Err (SEx α)
@@ -220,6 +261,14 @@ def lower (L : Layout) (i : Nat) : Ex α → Except Err (SEx α)
   | .or a b => do let x ← lower L i a; let y ← lower L i b; .ok (.or x y)
   | .in3 x lo hi => do let a ← lower L i x; let b ← lower L i lo; let c ← lower L i hi; .ok (.in3 a b c)
   | .sat x lo hi => do let a ← lower L i x; let b ← lower L i lo; let c ← lower L i hi; .ok (.sat a b c)
+  | .matvec q cols a => do
+      let n ← (L.pars[q]?).elim (.error .key) .ok
+      if cols = 0 ∨ n % cols ≠ 0 ∨ n / cols ≤ i then .error .index
+      else
+        let xs ← (List.range cols).mapM fun j => lower L j a
+        match xs with
+        | [] => .error .shape
+        | x :: rest => .ok (dotRow (offsetOf L.pars q + i * cols) x rest)
 
 end Ex
 
@@ -233,12 +282,17 @@ structure LModel (α : Type) where
 namespace LModel
 variable {α : Type}
 
+/-- the block of scalar expressions one equation contributes.  An `Ode` whose right-hand side is neither a
+scalar nor of the size of its `diff_var` has no meaning (the code refuses it: "Incompatible eqn address length") -/
+def eqBlock (L : Layout) (e : Ex α) (target : Nat) : Except Err (List (SEx α)) := do
+  let n ← e.size L
+  if n ≠ 1 ∧ target ≠ 0 ∧ n ≠ target then .error .shape
+  else (List.range (max n target)).mapM fun i => e.lower L (if n = 1 then 0 else i)
+
 /-- the residual as a list of scalar expressions, equation after equation in declaration order:
 position `r` of the list is the element the symbolic model reports at equation offset `r` -/
 def residual (m : LModel α) : Except Err (List (SEx α)) := do
-  let parts ← m.eqs.mapM fun (e, target) => do
-    let n ← e.size m.L
-    (List.range (max n target)).mapM fun i => e.lower m.L (if n = 1 then 0 else i)
+  let parts ← m.eqs.mapM fun (e, target) => eqBlock m.L e target
   .ok parts.flatten
 
 def evalF (F : TFld α) (m : LModel α) (ρ : SEx.Env α) : Except Err (List α) := do
